@@ -132,7 +132,14 @@ def _agent_loop(rf, wf):
             elif op == "compile":
                 o = handles[rq["h"]]
                 try:
-                    compiled[rq["c"]] = pymbolic.compile(o, rq["vars"])
+                    vs = rq["vars"]
+                    if rq.get("as_variables"):
+                        # a caller may pass Variable objects in a list of its own ...
+                        vs = [p.Variable(v) for v in vs]
+                    compiled[rq["c"]] = pymbolic.compile(o, vs)
+                    if rq.get("as_variables") and rq.get("grow_list_after"):
+                        # ... and go on using (growing) that list for its next kernel
+                        vs.append(p.Variable("later_arg"))
                     reply({"ok": True, "compiled": True})
                 except Exception as e:  # noqa: BLE001
                     reply({"ok": True, "compiled": False, "exc": type(e).__name__})
